@@ -1,0 +1,61 @@
+//go:build verif
+
+package kubeeventsmanager
+
+import (
+	"context"
+
+	"github.com/deckhouse/deckhouse/pkg/log"
+	"k8s.io/apimachinery/pkg/apis/meta/v1/unstructured"
+
+	klient "github.com/flant/kube-client/client"
+	"github.com/flant/shell-operator/pkg/filter/jq"
+	kemtypes "github.com/flant/shell-operator/pkg/kube_events_manager/types"
+	"github.com/flant/shell-operator/pkg/metric"
+)
+
+// VerifInformerC08 gives the verification harness (property C08) access to one real
+// resourceInformer: the real createSharedInformer/loadExistedObjects, handleWatchEvent,
+// getCachedObjects and enableKubeEventCb are called, nothing is re-implemented here.
+type VerifInformerC08 struct {
+	ei *resourceInformer
+}
+
+func VerifNewInformerC08(client *klient.Client, mstor metric.Storage, cfg *MonitorConfig, ns, name string, cb func(kemtypes.KubeEvent)) *VerifInformerC08 {
+	ei := newResourceInformer(ns, name, &resourceInformerConfig{
+		client:  client,
+		mstor:   mstor,
+		eventCb: cb,
+		monitor: cfg,
+		logger:  log.NewNop(),
+	})
+	return &VerifInformerC08{ei: ei}
+}
+
+// CreateSharedInformer discovers the GVR and loads the existing objects into the cache.
+func (v *VerifInformerC08) CreateSharedInformer() error { return v.ei.createSharedInformer() }
+
+// Start registers the informer as handler of a real shared informer on the client.
+func (v *VerifInformerC08) Start(ctx context.Context) {
+	v.ei.withContext(ctx)
+	v.ei.start()
+}
+
+func (v *VerifInformerC08) OnAdd(obj *unstructured.Unstructured)    { v.ei.OnAdd(obj, false) }
+func (v *VerifInformerC08) OnUpdate(obj *unstructured.Unstructured) { v.ei.OnUpdate(nil, obj) }
+func (v *VerifInformerC08) OnDelete(obj *unstructured.Unstructured) { v.ei.OnDelete(obj) }
+
+func (v *VerifInformerC08) EnableKubeEventCb() { v.ei.enableKubeEventCb() }
+
+// CachedObjects is what Monitor.Snapshot() collects from this informer.
+func (v *VerifInformerC08) CachedObjects() []kemtypes.ObjectAndFilterResult {
+	return v.ei.getCachedObjects()
+}
+
+// VerifApplyFilterC08 is the real applyFilter with the jq filter implementation the informers use.
+func VerifApplyFilterC08(jqFilter string, obj *unstructured.Unstructured) (*kemtypes.ObjectAndFilterResult, error) {
+	return applyFilter(jqFilter, jq.NewFilter(), nil, obj)
+}
+
+// VerifResourceIdC08 is the cache key of an object.
+func VerifResourceIdC08(obj *unstructured.Unstructured) string { return resourceId(obj) }
